@@ -6,7 +6,7 @@ mkdir -p $D
 python3 - <<PY
 import sys; sys.path.insert(0,'/verif')
 from vp_lib.mirror import build_mirror
-b=build_mirror(out_path='$D/mirror.rs')
+b=build_mirror(repo='${VP_REPO:-/repo}', out_path='$D/mirror.rs')
 if b.problems: print('PROBLEMS', b.problems)
 PY
 cd $D
